@@ -2130,6 +2130,70 @@ fn mp_case(r: &mut Report, cfg: &Cfg, idx: u64, rng: &mut Rng, bin: &Path) {
 
 // ---------------------------------------------------------------------------------------------
 
+fn burst_rounds(r: &mut Report, cfg: &Cfg) {
+    use std::sync::atomic::{AtomicI64, Ordering};
+    use std::sync::Barrier;
+    let rounds = cfg.tier.pick(120u64, 1500u64);
+    let s = sched();
+    s.reset();
+    let mut two = 0u64;
+    let mut none = 0u64;
+    let mut done = 0u64;
+    for round in 0..rounds {
+        if r.elapsed() > cfg.budget_s * 0.25 {
+            break;
+        }
+        let k = 2 + (round as usize % 5);
+        let store = Store::new("c18b");
+        let barrier = Arc::new(Barrier::new(k));
+        let holders = Arc::new(AtomicI64::new(0));
+        let max_seen = Arc::new(AtomicI64::new(0));
+        let acquired = Arc::new(AtomicI64::new(0));
+        let mut hs = Vec::new();
+        for _ in 0..k {
+            let (b, h, m, a) = (barrier.clone(), holders.clone(), max_seen.clone(), acquired.clone());
+            let data = store.data.clone();
+            let ws = store.ws.clone();
+            hs.push(std::thread::spawn(move || {
+                let rt = tokio::runtime::Builder::new_current_thread().enable_all().build();
+                b.wait();
+                let Ok(rt) = rt else { return };
+                // one direct attempt at the same instant, then (losers) the recovery loop is not needed:
+                // with a live holder it must simply fail
+                if let Ok(guard) = rt.block_on(ripd::verif_export::acquire_authority_lock_with_recovery(&data, &ws)) {
+                    a.fetch_add(1, Ordering::SeqCst);
+                    let n = h.fetch_add(1, Ordering::SeqCst) + 1;
+                    m.fetch_max(n, Ordering::SeqCst);
+                    std::thread::sleep(Duration::from_millis(12));
+                    h.fetch_sub(1, Ordering::SeqCst);
+                    drop(guard);
+                }
+            }));
+        }
+        for h in hs {
+            let _ = h.join();
+        }
+        done += 1;
+        r.eval();
+        let m = max_seen.load(Ordering::SeqCst);
+        if m > 1 {
+            two += 1;
+            r.violation(
+                "C18/two_holders/barrier_burst_from_nothing",
+                &format!("{m} of {k} contenders released by a barrier on an empty store held the authority lock at the same time"),
+                json!({"part": "burst", "round": round, "contenders": k, "simultaneous_holders": m}),
+            );
+        }
+        if acquired.load(Ordering::SeqCst) == 0 {
+            none += 1;
+        }
+    }
+    r.distinct_str("burst|nothing");
+    r.count("burst_rounds", done);
+    r.count("burst_rounds_with_two_holders", two);
+    r.count("burst_rounds_nobody_acquired", none);
+}
+
 pub fn run(cfg: &Cfg) -> i32 {
     let mut r = Report::new(
         "C18",
@@ -2173,6 +2237,11 @@ pub fn run(cfg: &Cfg) -> i32 {
         }
         return r.finish(cfg);
     }
+
+    // (A0) barrier bursts from the empty state: K contenders released at the same instant, no injected
+    // delay anywhere (delays at hook points de-synchronise contenders; a window that contains no hook
+    // point — e.g. between an existence check and a rename — is only hit by truly simultaneous starts)
+    burst_rounds(&mut r, cfg);
 
     let max_cases = cfg.tier.pick(4_000u64, 2_000_000u64);
     let mp_every = cfg.tier.pick(9u64, 7u64);
